@@ -241,7 +241,7 @@ impl Prop for C08 {
         prop_oneof![4 => planted, 1 => wide].boxed()
     }
     fn cases(tier: Tier) -> u32 { tier.pick(12_000, 300_000) }
-    fn shards(_: Tier) -> usize { 8 }
+    fn shards(tier: Tier) -> usize { tier.pick(8, 16) }
     fn replay_repeats() -> usize { 30 }
     fn run(case: &Case, ctx: &Ctx) -> Outcome { to_outcome(run_case(case, ctx.tier)) }
 }
